@@ -28,6 +28,12 @@ for run in req['runs']:
                 with open(p, 'wb') as f:
                     f.write(content.encode('utf-8') if isinstance(content, str) else bytes(content))
         argv = [os.path.join(d, a[1:]) if a.startswith('@') else a for a in run['argv']]
+        if run.get('s3') is not None:
+            # the S3 variants of the commands run against an in-memory fake (no source change needed)
+            sys.path.insert(0, os.path.dirname(os.path.abspath(__file__)))
+            import fakes3
+            from mosromgr.utils import s3 as s3mod
+            fakes3.install(s3mod, objects={k: v.encode('utf-8') for k, v in run['s3'].items()})
         so, se = io.StringIO(), io.StringIO()
         status = None
         with contextlib.redirect_stdout(so), contextlib.redirect_stderr(se):
